@@ -749,10 +749,73 @@ def componentise(rng, d: Doc, p: float = 0.5) -> Doc:
     return d
 
 
+def annotate(rng, d: Doc, p: float = 0.25) -> Doc:
+    """Sprinkle keywords that carry NO structural meaning over operations, parameters, schemas and properties: deprecated,
+    externalDocs, x- extensions, examples, title, readOnly / writeOnly, validation limits. Meaning and expectation model are
+    unchanged; a generator that reacts to one of them (a decorator, an import, a dropped field) becomes observable."""
+    used = set()
+
+    def mark(node: dict, kind: str) -> None:
+        if not isinstance(node, dict) or "$ref" in node:
+            return
+        r = rng.random
+        if r() < p:
+            node["deprecated"] = True
+            used.add(f"{kind}_deprecated")
+        if r() < p / 2:
+            node["x-internal-note"] = {"owner": "team-a", "tier": 2}
+            used.add(f"{kind}_x_extension")
+        if kind == "operation":
+            if r() < p / 2:
+                node["externalDocs"] = {"url": "https://docs.test/x", "description": "more"}
+            if r() < p / 3:
+                node["security"] = [{"apiKeyAuth": []}]
+            if r() < p / 3:
+                node["servers"] = [{"url": "https://alt.test/v2"}]
+        elif kind in ("schema", "property"):
+            t = node.get("type")
+            if r() < p / 2:
+                node["title"] = "A Title"
+            if kind == "property" and r() < p / 3 and "readOnly" not in node:
+                node[rng.choice(["readOnly", "writeOnly"])] = True
+                used.add("property_read_or_write_only")
+            if t == "string" and "enum" not in node and "format" not in node and r() < p:
+                node.update(rng.choice([{"minLength": 1}, {"maxLength": 4000}, {"pattern": "^.*$"}]))
+                used.add("validation_keywords")
+            if t in ("integer", "number") and "enum" not in node and r() < p:
+                node.update(rng.choice([{"minimum": -10 ** 9}, {"maximum": 10 ** 9}, {"multipleOf": 1} if t == "integer" else {"exclusiveMinimum": False}]))
+                used.add("validation_keywords")
+            if t == "array" and r() < p:
+                node.update(rng.choice([{"minItems": 0}, {"maxItems": 10000}, {"uniqueItems": False}]))
+                used.add("validation_keywords")
+
+    for item in d.doc.get("paths", {}).values():
+        for k, v in item.items():
+            if k == "parameters":
+                for prm in v:
+                    mark(prm, "parameter")
+            elif isinstance(v, dict) and "responses" in v:
+                mark(v, "operation")
+                for prm in v.get("parameters", []):
+                    mark(prm, "parameter")
+    for sch in d.doc.get("components", {}).get("schemas", {}).values():
+        if isinstance(sch, dict):
+            mark(sch, "schema")
+            for part in [sch] + [m for m in sch.get("allOf", []) if isinstance(m, dict)]:
+                for prop in (part.get("properties") or {}).values():
+                    mark(prop, "property")
+    if any(v.get("security") for item in d.doc.get("paths", {}).values() for v in item.values() if isinstance(v, dict)):
+        d.doc.setdefault("components", {}).setdefault("securitySchemes", {})["apiKeyAuth"] = {"type": "apiKey", "in": "header", "name": "X-Key"}
+    d.features |= {f"annot_{u}" for u in used}
+    return d
+
+
 def generate(rng, allow: set[str] | None = None, prof: dict | None = None) -> Doc:
     d = Gen(rng, allow, prof).build()
     if prof and rng.random() < prof.get("p_component_refs", 0.0):
         componentise(rng, d)
+    if rng.random() < (prof or {}).get("p_annotations", 0.4):
+        annotate(rng, d)
     return d
 
 
